@@ -22,18 +22,18 @@ type LangConst struct {
 // the Language type and its constants, word lists read from the syntax tree, and
 // the abstract values the package initialisers assign.
 type Globals struct {
-	P         *Program
-	LangType  *types.Named
-	LangConst []LangConst
-	Lists     map[*ssa.Global]*ListV   // []string globals with a literal of constants
-	ListOrder []*ssa.Global
-	Vecs      map[*ssa.Global]*VecV    // arrays/slices of constant integers
-	Init      map[*ssa.Global]AV       // value stored by the synthetic initialiser
-	Objs      State                    // contents of objects created by initialisers
-	MapBits   map[*ssa.Global]int64    // set by T3: lookup map -> width of its values
-	InitNotes []string
+	P          *Program
+	LangType   *types.Named
+	LangConst  []LangConst
+	Lists      map[*ssa.Global]*ListV // []string globals with a literal of constants
+	ListOrder  []*ssa.Global
+	Vecs       map[*ssa.Global]*VecV // arrays/slices of constant integers
+	Init       map[*ssa.Global]AV    // value stored by the synthetic initialiser
+	Objs       State                 // contents of objects created by initialisers
+	MapBits    map[*ssa.Global]int64 // set by T3: lookup map -> width of its values
+	InitNotes  []string
 	InitEvents []Event
-	AllGlobals []*ssa.Global           // globals of root + wordlist, sorted by name
+	AllGlobals []*ssa.Global // globals of root + wordlist, sorted by name
 }
 
 // BuildGlobals reads the tables and abstractly evaluates the synthetic initialisers.
